@@ -395,11 +395,19 @@ func objects(c objCase) []interface{} {
 	return objs
 }
 
+func argInts(in []reflect.Value) []interface{} {
+	var out []interface{}
+	for _, v := range in {
+		out = append(out, v.Interface())
+	}
+	return out
+}
+
 var emptySeen = map[string]int{}
 
 var accessors = ev.Register(&ev.P[objCase]{
 	Name: "accessors_total_and_wellformed",
-	Rule: "generated (date-time, gender, sect, week start); every exported zero-argument method (discovered by reflection) of the civil date, lunar date, eight characters, fortune (Yun, all DaYun, LiuNian/XiaoYun of periods 0,1,last, LiuYue of the first annual entry), hour objects (GetTime + 13 GetTimes), nine stars under all sects, Taoist/Buddhist dates and their festivals, lunar year/month, civil week/month/season/half-year/year, terms, Fu, ShuJiu, Holiday, recursing one level into returned objects; oracle: no panic; index-like ints in their tables' ranges; strings of the table-lookup families are members of the exported vocabulary (yi/ji and shen-sha through the verif hook); strings not on the explicit may-be-empty list are non-empty; lists have no empty or duplicate element and 无 only alone; non-trivial: the date has a (Foto/Tao/lunar/civil) festival or term, is in a leap month, 23:xx, or within 3 years of a range end",
+	Rule: "generated (date-time, gender, sect, week start); every exported zero-argument method (discovered by reflection) of the civil date, lunar date, eight characters, fortune (Yun, all DaYun, LiuNian/XiaoYun of periods 0,1,last, LiuYue of the first annual entry), hour objects (GetTime + 13 GetTimes), nine stars under all sects, Taoist/Buddhist dates and their festivals, lunar year/month, civil week/month/season/half-year/year, terms, Fu, ShuJiu, Holiday, recursing one level into returned objects; the switch of the eight characters also takes values other than 1 and 2 (documented to mean 2); the lunar date's argument-taking accessors (…BySect, …ByWholeDay, Next) are called with rotating arguments and the zero-argument pass is repeated on that same object; oracle: no panic; index-like ints in their tables' ranges; strings of the table-lookup families are members of the exported vocabulary (yi/ji and shen-sha through the verif hook); strings not on the explicit may-be-empty list are non-empty; lists have no empty or duplicate element and 无 only alone; non-trivial: the date has a (Foto/Tao/lunar/civil) festival or term, is in a leap month, 23:xx, or within 3 years of a range end",
 	Check: func(c objCase) error {
 		var first error
 		n := 0
@@ -429,6 +437,62 @@ var accessors = ev.Register(&ev.P[objCase]{
 				if first == nil {
 					if err := judge(call); err != nil {
 						first = fmt.Errorf("%v gender=%d sect=%d start=%d: %v", c.T, c.Gender, c.Sect, c.Start, err)
+					}
+				}
+			})
+			if first != nil {
+				return first
+			}
+		}
+		// accessors that take a convention / whole-day / step argument are accessors, too: each is called on ONE lunar
+		// date (arguments rotate with the case), must not panic, and the zero-argument accessors asked afterwards on
+		// that same object must still be total and well formed
+		if c.T.Y >= 3 && c.T.Y <= 9996 {
+			l2 := gen.Solar(c.T).GetLunar()
+			lv := reflect.ValueOf(l2)
+			rot := c.T.D + c.T.H + c.T.Mi + c.Start
+			for i := 0; i < lv.NumMethod(); i++ {
+				m := lv.Type().Method(i)
+				if m.Type.NumIn() < 2 || m.Type.NumOut() == 0 || strings.HasPrefix(m.Name, "Set") {
+					continue
+				}
+				var in []reflect.Value
+				ok := true
+				for k := 1; k < m.Type.NumIn(); k++ {
+					switch m.Type.In(k).Kind() {
+					case reflect.Bool:
+						in = append(in, reflect.ValueOf((rot+i)%2 == 0))
+					case reflect.Int:
+						v := []int{1, 2, 3, 2, 1, 0, 4}[(rot+i)%7]
+						if m.Name == "Next" {
+							v = []int{1, -1, 0, 2, 30, -30, 365}[(rot+i)%7]
+						}
+						in = append(in, reflect.ValueOf(v))
+					default:
+						ok = false
+					}
+				}
+				if !ok {
+					continue
+				}
+				if msg := func() (msg string) {
+					defer func() {
+						if r := recover(); r != nil {
+							msg = fmt.Sprint(r)
+						}
+					}()
+					lv.Method(i).Call(in)
+					return ""
+				}(); msg != "" {
+					return fmt.Errorf("%v: Lunar.%s%v panics: %s", c.T, m.Name, argInts(in), msg)
+				}
+				n++
+			}
+			dig.Visit(l2, 0, func(call dig.Call) {
+				n++
+				if first == nil {
+					if err := judge(call); err != nil {
+						first = fmt.Errorf("%v (after the argument-taking accessors of the same object were called): %v", c.T, err)
 					}
 				}
 			})
@@ -623,7 +687,7 @@ func genObj(t *rapid.T) objCase {
 	default:
 		d = gen.Moment(t)
 	}
-	return objCase{T: d, Gender: rapid.IntRange(0, 1).Draw(t, "gender"), Sect: rapid.IntRange(1, 2).Draw(t, "sect"), Start: rapid.IntRange(0, 6).Draw(t, "start")}
+	return objCase{T: d, Gender: rapid.IntRange(0, 1).Draw(t, "gender"), Sect: rapid.SampledFrom([]int{1, 2, 1, 2, 0, 3, -1}).Draw(t, "sect"), Start: rapid.IntRange(0, 6).Draw(t, "start")}
 }
 
 func TestC08(t *testing.T) {
